@@ -1,6 +1,6 @@
 SPECIFICATION Spec
 CONSTANTS
-  MaxSteps = 14
+  MaxSteps = 10
   DEV_StaticRegistersCenter = FALSE
   DEV_ReassignKeepsOld = FALSE
   DEV_RemoveNeedsLanelets = FALSE
